@@ -69,9 +69,11 @@ PROPS["C20"] = {
     "level": "other",
     "text": "Proof that each add_match increments exactly one histogram cell [removed length][errors] on the correct end (5'/3' split "
             "for anywhere and linked adapters), exactly one adjacent-base bucket for 3' matches, and nothing else; proof that every "
-            "registration site calls add_match once per recorded match.  The 'allowed errors' ranges are checked by a bounded "
-            "exhaustive stand-in (float arithmetic).",
-    "note": "Trusted: dict/defaultdict semantics.  Bounded: ErrorRanges over all lengths <= 60 and rates k/100.",
+            "registration site calls add_match once per recorded match; the merges of the per-adapter statistics across chunks are "
+            "cell-by-cell sums; report.histogram_rows: every row of the report's table carries the tallied count of its removed "
+            "length and the tally's error counts cell for cell, none beyond the end of the list.  Bounded: the 'allowed errors' "
+            "ranges (float arithmetic), the report's JSON against the tally of the applied matches, --revcomp bookkeeping.",
+    "note": "Trusted: dict/defaultdict semantics; sorted()/max() over dict keys; rows observed where they are yielded.  Bounded: ErrorRanges over all lengths <= 60 and rates k/100.",
     "assumptions": ["ErrorRanges: Python float arithmetic is exercised natively, not modelled"],
 }
 
@@ -90,10 +92,11 @@ PROPS["C15"] = {
     "text": "The three demultiplexers are proved to write every read (pair) exactly once to the writer selected by the name of the "
             "last match on R1 (the pair of names), to the untrimmed writer, or to count it as discarded; demultiplex-mode detection is "
             "proved as a truth table.  Demultiplexer._open_writers / PairedDemultiplexer._open_writers: one writer per adapter name, opened "
-            "on the template with {name} replaced, plus the untrimmed writer iff requested.  Bounded: file creation of the combinatorial "
-            "demultiplexer and of the whole command line.",
+            "on the template with {name} replaced, plus the untrimmed writer iff requested; CombinatorialDemultiplexer._open_writers: a writer "
+            "for every combination of an R1 and an R2 name and, unless untrimmed pairs are discarded, for (none, none), (none, name2) and "
+            "(name1, none) with `unknown` in the file names.  Bounded: that nothing else is opened, and file creation of the whole command line.",
     "note": "Trusted: dict lookups as uninterpreted functions of the key; adapter names of matches are among the configured names.",
-    "assumptions": ["CombinatorialDemultiplexer._open_writers is exercised natively, not proved"],
+    "assumptions": ["itertools.product enumerates exactly the pairs; a list enumerates exactly its elements; names identified by integer ids"],
 }
 
 PROPS["C05"] = {
